@@ -23,7 +23,7 @@ RULE = (
     "-r <spec> for spec spellings list / kN / kB / n / b / 4dn (any letter case) on a genome of >=1024 bins. "
     "Oracle: model coarsening; expected level set = targets U bases. Non-trivial = >=2 derived levels of which "
     ">=1 has a non-base predecessor. Distinct by sha1 of the canonical case."
-    ' CLI cases also draw one or two --field specs (either order, different aggregates) on a base with a second value column, a finer base through --base-uri (COOL_PATH coarser), -r 4DN on genomes up to 7 Mb, and --legacy (integer-labelled quad-tree levels, recognition, every level against the model).'
+    ' CLI cases also draw one or two --field specs (either order, different aggregates) on a base with a second value column, a finer base through --base-uri (COOL_PATH coarser), additional bases through --base-uri that no requested resolution derives from, -r 4DN on genomes up to 7 Mb, and --legacy (integer-labelled quad-tree levels, recognition, every level against the model).'
 )
 ASSUMPTIONS = [
     "with mutually inconsistent bases a derived level must equal the coarsening of SOME base that divides it (validity predicate)",
@@ -220,7 +220,7 @@ def check_zoom(case, ctx: Ctx):
 def cli_cases(draw):
     b = draw(st.sampled_from([1000, 1000, 500, 100, 250, 40]))
     nb = [draw(st.integers(600, 1500)), draw(st.integers(500, 900))]
-    kind = draw(st.sampled_from(["list", "kN", "kB", "n", "b", "4dn", "4dn", "default", "mixed", "legacy", "legacy"]))
+    kind = draw(st.sampled_from(["list", "list", "list", "kN", "kB", "n", "b", "4dn", "4dn", "default", "mixed", "legacy", "legacy"]))
     k = b * draw(st.sampled_from([1, 1, 2, 5]))
     exact = draw(st.booleans())     # genome length chosen so that ceil(total/256) is exactly a progression member
     if exact:
@@ -266,7 +266,13 @@ def cli_cases(draw):
         spec = spec.replace(str(k), str(b), 1) if kind != "mixed" else f"{b * 3},{b}{spec[-1]}"
     if base_m:
         fields = None
-    return {"part": "cli", "b": b, "nbins": nb, "kind": kind, "spec": spec, "exact": exact and kind != "4dn", "fields": fields, "base_m": base_m,
+    # additional base coolers (prime multiples of the base bin size) given with --base-uri although no requested resolution
+    # derives from them: every base is still copied ("each base resolution exactly once")
+    extra_bases = []
+    if kind == "list" and draw(st.integers(0, 1)) == 1:
+        base_m, fields = None, None
+        extra_bases = draw(st.sampled_from([[7], [3, 7], [11], [5]]))
+    return {"part": "cli", "b": b, "nbins": nb, "kind": kind, "spec": spec, "exact": exact and kind != "4dn", "fields": fields, "base_m": base_m, "extra_bases": extra_bases,
             "px": draw(st.lists(st.tuples(st.integers(0, 499), st.integers(0, 499), st.integers(1, 9)), min_size=1, max_size=12,
                                 unique_by=lambda t: (min(t[0], t[1]), max(t[0], t[1]))))}
 
@@ -350,13 +356,18 @@ def check_cli(case, ctx: Ctx):
                  model.coarsen_rows(bt, rows, m_, True, ("sum",)), True, h5opts={"compression": None})
             args = ["zoomify", coarse, "--base-uri", base, "-o", out, "-c", "100000"]
             cur = b * m_
+        for m_x in case.get("extra_bases") or []:
+            xb = os.path.join(work, f"extra{m_x}.cool")
+            call(f"create the extra base at {b * m_x}", create_from_model, xb, model.coarsen_bins(bt, m_x),
+                 model.coarsen_rows(bt, rows, m_x, True, ("sum",)), True, h5opts={"compression": None})
+            args += ["--base-uri", xb]
         for f in fields or []:
             args += ["--field", f]
         if case["spec"] is not None:
             args += ["-r", case["spec"]]
         genome = sum(e[-1] for e in bt["edges"])
         maxres = int(math.ceil(genome / 256))
-        want = sorted(set(_expand(case["spec"], cur, maxres)) | {b, cur})
+        want = sorted(set(_expand(case["spec"], cur, maxres)) | {b, cur} | {b * m_x for m_x in case.get("extra_bases") or []})
         derivable = all(r % b == 0 for r in want)
         rc, outtxt, exc = run_cli(args)
         if not derivable:
@@ -368,7 +379,7 @@ def check_cli(case, ctx: Ctx):
         check(got == [f"/resolutions/{r}" for r in want],
               lambda: f"zoomify -r {case['spec']} on base {b} (genome {genome}, maxres {maxres}) produced {got}, documented progression is {want}")
         check(is_multires_file(out), "not recognised as multires")
-        for r in want[:: max(1, len(want) // 3)]:
+        for r in sorted(set(want[:: max(1, len(want) // 3)]) | {b * m_x for m_x in case.get("extra_bases") or []}):
             clr = cooler.Cooler(f"{out}::resolutions/{r}")
             k = r // b
             pr = _proj(rows, cols) if fields else rows
@@ -380,7 +391,7 @@ def check_cli(case, ctx: Ctx):
             check(model.read_bins(clr) == model.bins_rows(model.coarsen_bins(bt, k) if k > 1 else bt), f"level {r} bin table differs")
     finally:
         ctx.clean(work)
-    ctx.record(case, len(want) >= 3, ["cli", "cli-" + case["kind"], f"cli-levels={min(len(want), 6)}", "cli-fields=" + ",".join(fields or ["default"]), "cli-finer-base-uri" if case.get("base_m") else "cli-one-base",
+    ctx.record(case, len(want) >= 3, ["cli", "cli-" + case["kind"], f"cli-levels={min(len(want), 6)}", "cli-fields=" + ",".join(fields or ["default"]), "cli-finer-base-uri" if case.get("base_m") else f"cli-extra-bases={len(case.get('extra_bases') or [])}",
                                       "cli-maxres-is-member" if maxres in want else "cli-maxres-between"])
 
 
